@@ -258,29 +258,39 @@ structure Res where
   errs : List Err
   deriving Inhabited
 
+/-- `y := *t.Type.YangType; y.Name = t.Name` -/
+def tdCopy (td : Stmt) (ty : YType) : YType := { ty.copyOf with name := td.arg }
+
+/-- `if t.Units != nil { y.Units = t.Units.Name }` -/
+def tdUnits (td : Stmt) (y : YType) : YType :=
+  match td.one? "units" with
+  | some u => { y with units := u.arg }
+  | none => y
+
+/-- `if t.Default != nil { y.HasDefault = true; y.Default = t.Default.Name }` -/
+def tdDefault (td : Stmt) (y : YType) : YType :=
+  match td.one? "default" with
+  | some d => { y with hasDefault := true, default := d.arg }
+  | none => y
+
+/-- `if t.Type.IdentityBase != nil { … }`; `none` = "could not resolve identity base for typedef". -/
+def tdIdentity (env : Env) (root : Mod) (tt : Stmt) (y : YType) : Option YType :=
+  match tt.one? "base" with
+  | none => some y
+  | some b =>
+    match Identity.findIdentityBase env.reg env.dict root b.arg with
+    | .ok e => some { y with identityBase := some e.key }
+    | .error _ => none
+
+/-- `if y.Root == t.Type.YangType || !y.Equal(y.Root) { y.Root = &y }` -/
+def tdRoot (ty y : YType) : YType := if ty.root.isNone || !y.equalsRoot then { y with root := none } else y
+
 /-- Go: `Typedef.resolve` from "Make a copy of the YangType we are based on" on; `ty` is
 `t.Type.YangType`, `tt` the typedef's type statement, `root` the module the typedef stands in. -/
 def typedefOverlay (env : Env) (root : Mod) (td tt : Stmt) (ty : YType) : Res :=
-  let y : YType := { ty.copyOf with name := td.arg }
-  let y := match td.one? "units" with
-    | some u => { y with units := u.arg }
-    | none => y
-  let y := match td.one? "default" with
-    | some d => { y with hasDefault := true, default := d.arg }
-    | none => y
-  let yb : Except Unit YType :=
-    match tt.one? "base" with
-    | none => .ok y
-    | some b =>
-      match Identity.findIdentityBase env.reg env.dict root b.arg with
-      | .ok e => .ok { y with identityBase := some e.key }
-      | .error _ => .error ()
-  match yb with
-  | .error _ => { ty := none, errs := [Err.bare "identity-base-typedef"] }
-  | .ok y =>
-    -- `if y.Root == t.Type.YangType || !y.Equal(y.Root) { y.Root = &y }`
-    let y := if ty.root.isNone || !y.equalsRoot then { y with root := none } else y
-    { ty := some y, errs := [] }
+  match tdIdentity env root tt (tdDefault td (tdUnits td (tdCopy td ty))) with
+  | none => { ty := none, errs := [Err.bare "identity-base-typedef"] }
+  | some y => { ty := some (tdRoot ty y), errs := [] }
 
 /-! ## Type.resolve: the overlays -/
 
